@@ -28,6 +28,8 @@ Definition next_id (st : pst) : N * pst :=
   let i := (pid st + 1)%N in (i, {| fp_cache := fp_cache st; labels_cache := labels_cache st; pid := i |}).
 Definition set_fp_cache w (st : pst) := {| fp_cache := Some w; labels_cache := labels_cache st; pid := pid st |}.
 Definition set_labels_cache w (st : pst) := {| fp_cache := fp_cache st; labels_cache := Some w; pid := pid st |}.
+(* MainFinalizerPlanner.Process (the root of every plan) first resets planner.fpCache / planner.labelsCache *)
+Definition clear_caches (st : pst) : pst := {| fp_cache := None; labels_cache := None; pid := pid st |}.
 
 (* FormatFromDate(t) = t.UTC().Add(-30 min).Format("2006-01-02") as a day number *)
 Definition from_day (from_ns : Z) : Z := (from_ns - 1800 * 1000000000) / (86400 * 1000000000).
@@ -284,7 +286,7 @@ Fixpoint process (p : planner) (c : pctx) (st : pst) {struct p} : res (select * 
     do (req, st1, main') <- process main c st;
     Some ((if Z.eqb (c_limit c) 0 then req else set_limit (Some (IntV (c_limit c))) req), st1, PMainLimit main')
   | PMainFinalizer main is_matrix is_final =>
-    do (req, st1, main') <- process main c st;
+    do (req, st1, main') <- process main c (clear_caches st);
     let p' := PMainFinalizer main' is_matrix is_final in
     if negb (c_finalize c) then Some (req, st1, p') else
     let a := "prefinal" in
